@@ -245,8 +245,15 @@ def extract_iter(
         else:
             # Only inserting new items into the stack trace; next_inner
             # (if any) is already at the front of `to_unwrap` with its own
-            # depth, so leave it there and insert the other items before it
+            # depth, so leave it there and insert the other items before it.
+            # The inserted items are logically inward of this frame but
+            # not of next_inner: give them a depth beyond both, so that a
+            # prune or replacement issued from one of them stops at
+            # next_inner, while one issued from next_inner still uses
+            # next_inner's own depth.
             items = items[:-1]
+            if to_unwrap:
+                depth = max(depth, to_unwrap[0][2]) + 1
         for item in reversed(items):
             to_unwrap.appendleft((better_origin(item, None), item, depth))
 
